@@ -120,6 +120,8 @@ class Gen:
         """A structure-conforming BBAN that O-nat accepts (True), or None if none was found."""
         pos = self.o.positions(cc)
         cl = self.classes(cc)
+        if cc in onat.LISTED and onat.missing_fields(cc, pos):
+            return None        # the table lacks a field the published algorithm reads (C17 reports that)
         for _ in range(tries):
             b = self.bban(cc, rng, variant)
             if cc not in onat.LISTED:
